@@ -257,7 +257,9 @@ class Instrument:
                 subj, err = None, None
                 if inst.use_real_stat:
                     try:
-                        st = helper(real_stat.from_file)(file)
+                        import contextlib, io
+                        with contextlib.redirect_stdout(io.StringIO()):
+                            st = helper(real_stat.from_file)(file)
                         subj = list(st.subjectnames)
                     except BaseException as e:  # noqa
                         err = type(e).__name__
@@ -374,6 +376,8 @@ class Comp:
         self.workers = None     # list of Worker once the constructor has returned
         self.handlers = []
         self.errors = []
+        self.sessions = []
+        self.start_out = None
 
 
 class Runner:
@@ -417,6 +421,7 @@ class Runner:
     def start_session(self, c, h, calls, sync=False):
         s = self.inst.sched
         c.h, c.calls, c.agg, c.workers, c.handlers = h, calls, None, None, []
+        c.start_out = read_lines(c.path)
         c.ctor_state = "run"
         ev = self.evaluators[h](lambda: self.inst.sched)
 
@@ -473,78 +478,122 @@ class Runner:
         hs = set(id(h) for h in c.handlers)
         self.inst.atexit.handlers = [h for h in self.inst.atexit.handlers if id(h) not in hs]
 
+    def do_event(self, comps, e):
+        s = self.inst.sched
+        tag = e[0]
+        mv = None
+        if tag == 0:
+            c = comps[e[1]]
+            if c.workers is not None and e[2] < len(c.workers):
+                mv = s.step(c.workers[e[2]])
+        elif tag == 1:
+            c = comps[e[1]]
+            if isinstance(c.ctor, Worker) and c.ctor_state == "run":
+                n0 = len(self.inst.atexit.handlers)
+                mv = s.step(c.ctor)
+                self.ctor_progress(c, n0)
+        elif tag == 2:
+            c = comps[e[1]]
+            self.end_session(c)
+            self.kill_session(c)
+            self.start_session(c, e[2], e[3])
+            mv = "crash"
+        elif tag == 3:
+            c = comps[e[1]]
+            if c.ctor_state == "done" and c.workers is not None and all(w.state == "done" for w in c.workers):
+                self.end_session(c)
+                for f, a, k in c.handlers:
+                    f(*a, **k)
+                self.kill_session(c)
+                self.start_session(c, e[2], e[3])
+                mv = "finish"
+        elif tag == 4:
+            for c in comps:
+                self.end_session(c)
+                self.kill_session(c)
+            for c, (h, calls) in zip(comps, e[1]):
+                self.start_session(c, h, calls)
+            mv = "crashall"
+        return mv
+
+    def end_session(self, c):
+        """record how the session that is about to end stands (for the final-state oracle)"""
+        done = c.ctor_state == "done" and c.workers is not None and all(w.state == "done" for w in c.workers)
+        stats = []
+        for w in (c.workers or []):
+            if w.state == "done" and w.error is not None:
+                c.errors.append("call:" + type(w.error).__name__ + ":" + str(w.error)[:80])
+            if w.state == "done" and isinstance(w.result, StatSnapshot):
+                stats.append(w.result)
+        c.sessions.append({"h": c.h, "calls": c.calls, "start_out": c.start_out, "complete": done,
+                           "ctor": c.ctor_state, "end_out": read_lines(c.path), "stats": stats,
+                           "at": len(self.cur_trace)})
+
     def run(self, scen):
         self.inst.fresh()
-        s = self.inst.sched
+        self.inst.use_real_stat = bool(scen.get("real_stat"))
         self.n += 1
         d = self.workdir / f"r{self.n % 64}"
         d.mkdir(parents=True, exist_ok=True)
         comps = [Comp(d / spec["file"]) for spec in scen["comps"]]
+        self.cur_trace = trace = []
         for c, spec in zip(comps, scen["comps"]):
             self.prepare(c, spec)
         for c, spec in zip(comps, scen["comps"]):
             self.start_session(c, spec.get("h", 7), spec["calls"], sync=bool(spec.get("ready")))
         init = self.observe(comps)
-        trace, moved = [], []
-        for e in scen["events"]:
-            tag = e[0]
-            mv = None
-            if tag == 0:
-                c = comps[e[1]]
-                if c.workers is not None and e[2] < len(c.workers):
-                    mv = s.step(c.workers[e[2]])
-            elif tag == 1:
-                c = comps[e[1]]
-                if isinstance(c.ctor, Worker) and c.ctor_state == "run":
-                    n0 = len(self.inst.atexit.handlers)
-                    mv = s.step(c.ctor)
-                    self.ctor_progress(c, n0)
-            elif tag == 2:
-                c = comps[e[1]]
-                self.kill_session(c)
-                self.start_session(c, e[2], e[3])
-                mv = "crash"
-            elif tag == 3:
-                c = comps[e[1]]
-                if c.ctor_state == "done" and c.workers is not None and all(w.state == "done" for w in c.workers):
-                    for f, a, k in c.handlers:
-                        f(*a, **k)
-                    self.kill_session(c)
-                    self.start_session(c, e[2], e[3])
-                    mv = "finish"
-            elif tag == 4:
-                for c in comps:
-                    self.kill_session(c)
-                for c, (h, calls) in zip(comps, e[1]):
-                    self.start_session(c, h, calls)
-                mv = "crashall"
-            moved.append(mv)
+        moved = []
+        events = list(scen["events"])
+        for e in events:
+            moved.append(self.do_event(comps, e))
             trace.append(self.observe(comps))
-        results = []
+        hang = False
+        if scen.get("complete"):
+            # round-robin until every constructor and call has returned (or nothing can move: deadlock)
+            for _ in range(400):
+                progressed, alldone = False, True
+                for k, c in enumerate(comps):
+                    cand = []
+                    if c.ctor_state == "run":
+                        cand.append([1, k])
+                        alldone = False
+                    elif c.workers is not None:
+                        for i, w in enumerate(c.workers):
+                            if w.state == "waiting":
+                                cand.append([0, k, i])
+                                alldone = False
+                    for e in cand:
+                        mv = self.do_event(comps, e)
+                        if mv is not None:
+                            progressed = True
+                            events.append(e)
+                            moved.append(mv)
+                            trace.append(self.observe(comps))
+                if alldone:
+                    break
+                if not progressed:
+                    hang = True
+                    break
         for c in comps:
-            rs = []
-            for w in (c.workers or []):
-                if w.state == "done" and w.error is not None:
-                    c.errors.append("call:" + type(w.error).__name__ + ":" + str(w.error)[:80])
-                rs.append(w.result if w.state == "done" else None)
-            results.append(rs)
+            self.end_session(c)
+        sessions = [c.sessions for c in comps]
         errors = [list(c.errors) for c in comps]
         for c in comps:          # leave no thread behind
             self.kill_session(c)
-        return {"init": init, "trace": trace, "moved": moved, "errors": errors, "results": results,
-                "paths": [(c.path, c.buf) for c in comps]}
+        return {"init": init, "trace": trace, "moved": moved, "errors": errors, "sessions": sessions,
+                "events": events, "hang": hang, "paths": [(c.path, c.buf) for c in comps]}
 
     # -- encoding for the model
     def enc_obs_comp(self, o):
         return [enc_file_lines(o["out"], self.hdr_ids, self.row_ids), enc_file_names(o["buf"])]
 
-    def model_input(self, scen, init_obs):
+    def model_input(self, scen, init_obs, events=None):
         comps = []
         for spec, o in zip(scen["comps"], init_obs):
             f = self.enc_obs_comp(o)
             comps.append([f[0], f[1], spec.get("h", 7), 1 if spec.get("ready") else 0, enc_calls(spec["calls"])])
         evs = []
-        for e in scen["events"]:
+        for e in (events if events is not None else scen["events"]):
             if e[0] in (0,):
                 evs.append([0, e[1], e[2]])
             elif e[0] == 1:
@@ -636,3 +685,263 @@ def build_env(workdir, real=False):
     inst.install()
     runner = Runner(inst, workdir, evaluators, inputs, hdr_ids, row_ids, header_text)
     return inst, runner
+
+
+# ------------------------------------------------------------------ checking scenarios: model + oracles
+WHAT = {0: "output file is not 'absent | empty | one header then complete rows with distinct names'",
+        1: "call-phase invariant broken (header of this setup, duplicate-free rows, duplicate-free claims, rows subset of claims)",
+        2: "an existing line of the output file was altered or removed",
+        3: "final file is not 'header once, old rows in place, exactly one row per submitted subject with a sequential run's values'"}
+
+
+def _rows(enc):
+    """rows [name, p] of an encoded output file (header dropped)"""
+    if enc[0] == 0:
+        return []
+    return [[l[1], l[2]] for l in enc[1][1:] if l[0] == 1]
+
+
+def oracle_checks(runner, scen, r):
+    checks, labels = [], []
+    ncomp = len(scen["comps"])
+    for k in range(ncomp):
+        states = [r["init"][k]] + [t[k] for t in r["trace"]]
+        sess = r["sessions"][k]
+        bounds, s0 = [], 0
+        for sj in sess:
+            bounds.append((s0, sj["at"], sj["h"]))
+            s0 = sj["at"] + 1
+        prevkey, prevout = None, None
+
+        def h_at(i):
+            for a, b, h in bounds:
+                if a <= i <= b:
+                    return h
+            return bounds[-1][2]
+        for i, st in enumerate(states):
+            eo = enc_file_lines(st["out"], runner.hdr_ids, runner.row_ids)
+            eb = enc_file_names(st["buf"])
+            key = (repr(eo), repr(eb), st["ctor"])
+            if key != prevkey:
+                checks.append([0, eo]); labels.append((k, 0, i))
+                if st["ctor"] == "done":
+                    checks.append([1, h_at(i), eo, eb]); labels.append((k, 1, i))
+            if prevout is not None and repr(prevout) != repr(eo):
+                checks.append([2, prevout, eo]); labels.append((k, 2, i))
+            prevkey, prevout = key, eo
+        for j, sj in enumerate(sess):
+            end = enc_file_lines(sj["end_out"], runner.hdr_ids, runner.row_ids)
+            if sj["complete"]:
+                old = _rows(enc_file_lines(sj["start_out"], runner.hdr_ids, runner.row_ids))
+                sub = [[enc_name(c[1]), c[2]] for c in sj["calls"] if c[0] == "e"]
+                checks.append([3, sj["h"], old, sub, end]); labels.append((k, 3, f"session {j}"))
+            for sn in sj["stats"]:
+                es = enc_file_lines(sn.lines, runner.hdr_ids, runner.row_ids)
+                checks.append([0, es]); labels.append((k, 0, f"statistics snapshot, session {j}"))
+                checks.append([2, es, end]); labels.append((k, 2, f"statistics snapshot vs file, session {j}"))
+                if sn.real_subjects is not None and sn.real_subjects != [c[0] for c in (sn.lines or [])[1:]]:
+                    checks.append([0, [1, [[1, [], 0]]]]); labels.append((k, 0, "Panoptica_Statistic subjects differ from the file rows"))
+    return checks, labels
+
+
+def check_batch(runner, scens, op_base=1600):
+    """run every scenario on the implementation and the model; returns one verdict dict per scenario"""
+    runs = [runner.run(sc) for sc in scens]
+    minputs = [runner.model_input(sc, r["init"], r["events"]) for sc, r in zip(scens, runs)]
+    mouts = common.engine_run(op_base + 1, minputs, nproc=1)
+    oc = [oracle_checks(runner, sc, r) for sc, r in zip(scens, runs)]
+    oouts = common.engine_run(op_base + 2, [c for c, _ in oc], nproc=1)
+    verdicts = []
+    for sc, r, mi, mo, (chk, lab), oo in zip(scens, runs, minputs, mouts, oc, oouts):
+        v = {"status": "ok", "events": r["events"], "moved": r["moved"], "model_in": mi, "model_out": mo}
+        bad = [(l, c) for l, c, res in zip(lab, chk, oo) if res != 1]
+        diff = runner.compare(mo, r["trace"])
+        errs = []
+        for k, es in enumerate(r["errors"]):
+            mfail = any(st[k][2] == 11 for st in mo) if mo else False
+            for e in es:
+                if e.startswith("ctor:AssertionError") and mfail:
+                    continue
+                errs.append(f"aggregator {k}: {e}")
+        if bad:
+            (k, kind, where), c = bad[0]
+            v.update(status="violation", what=f"{WHAT[kind]} (aggregator {k}, {('after event %d' % (where - 1)) if isinstance(where, int) else where})",
+                     failed_check=c)
+        elif errs:
+            v.update(status="violation", what="a call or the constructor raised: " + "; ".join(errs[:3]))
+        elif r["hang"]:
+            v.update(status="violation", what="deadlock: some call can never return (no thread can move)")
+        elif diff is not None:
+            i, k, what, m, o = diff
+            v.update(status="disagree", what=f"{what} differs between model and implementation after event {i} (aggregator {k})",
+                     model=m, observed=o)
+        v["final"] = [[enc_file_lines(sj["end_out"], runner.hdr_ids, runner.row_ids) for sj in ss][-1] for ss in r["sessions"]]
+        v["switches"] = sum(1 for a, b in zip(r["events"], r["events"][1:]) if a != b)
+        v["blocked"] = sum(1 for e, m in zip(r["events"], r["moved"]) if m is None)
+        verdicts.append(v)
+    return verdicts
+
+
+def _worker(args):
+    idx, scens, real, root, op_base = args
+    inst, runner = build_env(Path(root) / f"w{idx}_{os.getpid()}", real=real)
+    out = []
+    try:
+        for i in range(0, len(scens), 400):
+            for j, v in enumerate(check_batch(runner, scens[i:i + 400], op_base)):
+                # keep the payload small (every 23rd model run is kept for the vm_compute cross-check)
+                if v["status"] == "ok" and j % 23 != 0:
+                    v.pop("model_in", None); v.pop("model_out", None); v.pop("moved", None)
+                out.append(v)
+    finally:
+        inst.uninstall()
+        import shutil
+        shutil.rmtree(runner.workdir, ignore_errors=True)
+    return out
+
+
+def parallel_check(scens, real=False, nproc=None, op_base=1600, keep_model=0):
+    """verdicts in the order of `scens`; forks workers (each with its own scratch directory and scheduler)"""
+    import multiprocessing as mp
+    root = common.WORK / "agg"
+    root.mkdir(parents=True, exist_ok=True)
+    nproc = max(1, min(nproc or common.NPROC, len(scens) // 150 + 1))
+    if nproc == 1:
+        return _worker((0, scens, real, str(root), op_base))
+    chunks = [scens[i::nproc] for i in range(nproc)]
+    ctx = mp.get_context("fork")
+    with ctx.Pool(nproc) as pool:
+        parts = pool.map(_worker, [(i, ch, real, str(root), op_base) for i, ch in enumerate(chunks)])
+    merged = [None] * len(scens)
+    for i, p in enumerate(parts):
+        merged[i::nproc] = p
+    return merged
+
+
+# ------------------------------------------------------------------ schedule generators
+def interleavings(counts):
+    """all merges of sequences with the given lengths, as lists of indices"""
+    def rec(rem, acc):
+        if not any(rem):
+            yield list(acc)
+            return
+        for i, n in enumerate(rem):
+            if n:
+                rem[i] -= 1
+                acc.append(i)
+                yield from rec(rem, acc)
+                acc.pop()
+                rem[i] += 1
+    yield from rec(list(counts), [])
+
+
+def random_schedule(rng, n_threads, length):
+    """bursty random schedule: runs of the same thread of random length"""
+    out = []
+    while len(out) < length:
+        t = rng.randrange(n_threads)
+        out += [t] * rng.choice([1, 1, 1, 2, 2, 3, 5])
+    return out[:length]
+
+
+# ------------------------------------------------------------------ bookkeeping shared by c16.py / c17.py
+def record(ctx, scens, verdicts, layer, real=False, triples=None, prop="C16"):
+    """feed verdicts into the check context; returns the number of violations"""
+    nv = 0
+    for sc, v in zip(scens, verdicts):
+        names = [c[1] for comp in sc["comps"] for c in comp["calls"] if c[0] == "e"]
+        nontriv = v["switches"] >= 2 and (v["blocked"] > 0 or len(set(names)) < len(names) or len(v["events"]) > 12)
+        ctx.count({"comps": sc["comps"], "events": v["events"]}, nontriv)
+        ctx.bump(layer)
+        if triples is not None and "model_in" in v and v["status"] == "ok" and len(triples) < 70:
+            triples.append((int(prop[1:]) * 100 + 1, v["model_in"], v["model_out"]))
+        if v["status"] == "ok":
+            continue
+        rep = {"scenario": dict(sc, events=v["events"], complete=False), "evaluator": "real" if real else "stub",
+               "layer": layer, "detail": {k: v[k] for k in ("failed_check", "model", "observed") if k in v}}
+        if sc.get("finding_key"):
+            rep["finding_key"] = sc["finding_key"]
+        if v["status"] == "violation":
+            nv += 1
+            ctx.violation(v["what"], rep)
+        else:
+            ctx.disagree("aggregator-protocol: " + v["what"], rep)
+    return nv
+
+
+def replay_file(path, op_base):
+    import json
+    d = json.loads(open(path).read())
+    sc = d["scenario"]
+    inst, runner = build_env(common.WORK / "agg" / f"replay_{os.getpid()}", real=d.get("evaluator") == "real")
+    try:
+        r = runner.run(sc)
+        mi = runner.model_input(sc, r["init"], r["events"])
+        mo = common.engine_run(op_base + 1, [mi], nproc=1)[0]
+        print("events (0 k i = step call i of aggregator k; 1 k = step constructor; 2/3/4 = crash/exit/crash-all):")
+        for i, (e, mv, obs, ms) in enumerate(zip(r["events"], r["moved"], r["trace"], mo)):
+            print(f" {i:3d} {e!s:32} -> {mv}")
+            for k, (o, m) in enumerate(zip(obs, ms)):
+                print(f"       impl[{k}]  out={o['out']} buf={o['buf']} ctor={o['ctor']} returned={o['done']}")
+                print(f"       model[{k}] out={m[0]} buf={m[1]} ctor={m[2]} pcs={[p[0] for p in m[3]]}")
+        v = check_batch(runner, [sc], op_base)[0]
+    finally:
+        inst.uninstall()
+    print("verdict:", v["status"], "-", v.get("what", "model and implementation agree; all oracles hold"))
+    return 0 if v["status"] == "ok" else 1
+
+
+FORK_SMOKE = r"""
+import os, sys, io, contextlib, json
+os.environ["PANOPTICA_CITATION_REMINDER"] = "false"
+sys.path.insert(0, sys.argv[1])
+import numpy as np
+import multiprocessing as mp
+from panoptica import Panoptica_Evaluator, InputType
+from panoptica.metrics import Metric
+import panoptica.panoptica_aggregator as PA
+ev = Panoptica_Evaluator(InputType.MATCHED_INSTANCE, instance_metrics=[Metric.IOU])
+out = sys.argv[2]
+jobs = json.loads(sys.argv[3])            # per worker: list of [name, k]
+def arr(k):
+    a = np.zeros((2, 2), np.uint8); a.flat[:k] = 1; return a
+ref = arr(4)
+def work(agg, items):
+    with contextlib.redirect_stdout(io.StringIO()):
+        for name, k in items:
+            agg.evaluate(arr(k), ref, name)
+if __name__ == "__main__":
+    with contextlib.redirect_stdout(io.StringIO()):
+        agg = PA.Panoptica_Aggregator(ev, out)
+    ps = [mp.get_context("fork").Process(target=work, args=(agg, it)) for it in jobs]
+    [p.start() for p in ps]; [p.join(120) for p in ps]
+    print(json.dumps({"alive": [p.is_alive() for p in ps], "codes": [p.exitcode for p in ps]}))
+    [p.kill() for p in ps if p.is_alive()]
+    with contextlib.redirect_stdout(io.StringIO()):
+        seq = PA.Panoptica_Aggregator(ev, out.replace(".tsv", "_seq.tsv"))
+        for name, k in sorted(set((n, k) for it in jobs for n, k in it)):
+            seq.evaluate(arr(k), ref, name)
+"""
+
+
+def fork_smoke(rng, n_workers=4, n_subjects=6):
+    """real forked processes on the unmodified module; returns (jobs, lines of the final file, process report)"""
+    import json
+    import subprocess
+    import sys
+    import tempfile
+    d = tempfile.mkdtemp(dir=str(common.WORK))
+    script = Path(d) / "smoke.py"
+    script.write_text(FORK_SMOKE)
+    names = [f"s{i}" for i in range(n_subjects)]
+    kk = {n: rng.randint(1, 4) for n in names}
+    jobs = [[[n, kk[n]] for n in rng.sample(names, rng.randint(2, n_subjects))] for _ in range(n_workers)]
+    out = str(Path(d) / "smoke.tsv")
+    p = subprocess.run([sys.executable, str(script), str(common.REPO), out, json.dumps(jobs)], capture_output=True,
+                       text=True, timeout=300, env=dict(os.environ, PYTHONHASHSEED="0"))
+    rep = p.stdout.strip().split("\n")[-1] if p.stdout.strip() else p.stderr[-500:]
+    lines = read_lines(out)
+    seq = read_lines(out.replace(".tsv", "_seq.tsv"))
+    import shutil
+    shutil.rmtree(d, ignore_errors=True)
+    return jobs, kk, lines, seq, rep
